@@ -150,8 +150,11 @@ def plan(tier, seed):
                     sc1 = G.scenario([G.step("pass", cl=[n, layer, raises]), "pass"])
                     sc2 = G.scenario(["pass"])
                     items = [G.rule([sc1, sc2])] if in_rule else [sc1, sc2]
-                    prog = {"features": [G.feature(items), G.feature([G.scenario(["pass"])])], "family": "cleanup", "hookcl": n % 2 == 0}
-                    res.append((with_o2(prog), [G.cfg(), G.cfg(stop=True)], [[0, 0]]))
+                    # (features before and behind it that a tag expression de-selects as a whole -- with and without a rule;
+                    #  announced or, with --no-skipped, passed over silently: their scopes open and close all the same)
+                    prog = {"features": [G.feature([G.rule([G.scenario(["pass"])])]), G.feature(items, ["t1"]), G.feature([G.scenario(["pass"])])],
+                            "family": "cleanup", "hookcl": n % 2 == 0}
+                    res.append((with_o2(prog), [G.cfg(), G.cfg(stop=True), G.cfg(expr="t1", show_skipped=False), G.cfg(expr="t1")], [[0, 0]]))
         return res
 
     def logging_programs():
@@ -398,7 +401,7 @@ def shared(chk, part="core"):
     """Run (or load) the shared stage for this tree / tier / seed.  Returns a dict:
        n_runs, tlc: [{module,cfg,distinct,generated,wall,coverage}], verdicts: {clause: [ {key, ...} ]},
        divergences, samples, design_violations"""
-    key = tree_key({"tier": chk.tier, "seed": chk.seed, "part": part, "v": 38})
+    key = tree_key({"tier": chk.tier, "seed": chk.seed, "part": part, "v": 39})
     os.makedirs(CACHE, exist_ok=True)
     # one entry per (part, tier, repository location): runs against a mutated copy must not evict /repo's entry
     prefix = "%s-%s-%s-" % (part, chk.tier, hashlib.sha256(REPO.encode()).hexdigest()[:8])
